@@ -295,6 +295,36 @@ def check(program: Program, run: Run) -> None:
     if nt < 25:
         raise AnalysisError(f"instance count below floor: nested nodes_ calls {nt}")
 
+    # a hash stored on the object (self._hash = ..., vars(self)["_hash"] = ..., a hash computed once in __init__ and read
+    # back) travels with every shallow copy and outlives every later change of what == compares
+    nh = 0
+    for hf in program.definitions_of("__hash__"):
+        nh += 1
+        sn = hf.params[0]
+        dict_alias = {n.targets[0].id for n in ast.walk(hf.node) if isinstance(n, ast.Assign) and len(n.targets) == 1 and isinstance(n.targets[0], ast.Name) and (
+            (isinstance(n.value, ast.Attribute) and n.value.attr == "__dict__" and isinstance(n.value.value, ast.Name) and n.value.value.id == sn) or
+            (isinstance(n.value, ast.Call) and isinstance(n.value.func, ast.Name) and n.value.func.id == "vars" and n.value.args and isinstance(n.value.args[0], ast.Name) and n.value.args[0].id == sn))}
+        stores = []
+        for n in ast.walk(hf.node):
+            tg = n.targets if isinstance(n, ast.Assign) else ([n.target] if isinstance(n, (ast.AugAssign, ast.AnnAssign)) else [])
+            for t in tg:
+                if isinstance(t, ast.Attribute) and isinstance(t.value, ast.Name) and t.value.id == sn:
+                    stores.append(ast.unparse(t))
+                if isinstance(t, ast.Subscript) and ((isinstance(t.value, ast.Name) and t.value.id in dict_alias) or (
+                        isinstance(t.value, ast.Attribute) and t.value.attr == "__dict__" and isinstance(t.value.value, ast.Name) and t.value.value.id == sn)):
+                    stores.append(ast.unparse(t))
+            if isinstance(n, ast.Call) and isinstance(n.func, ast.Name) and n.func.id == "setattr" and n.args and isinstance(n.args[0], ast.Name) and n.args[0].id == sn:
+                stores.append(ast.unparse(n)[:40])
+            if isinstance(n, ast.Call) and isinstance(n.func, ast.Attribute) and n.func.attr == "setdefault" and (
+                    (isinstance(n.func.value, ast.Name) and n.func.value.id in dict_alias) or (isinstance(n.func.value, ast.Attribute) and n.func.value.attr == "__dict__")):
+                stores.append(ast.unparse(n)[:40])
+        run.ob("C17/R1 __hash__ computes its value from the current state (nothing stored on the object)", hf.qualname, not stores, detail="; ".join(stores)[:120], where=hf.loc())
+        if stores:
+            run.finding(f"C17/memoised-hash:{hf.qualname}", f"{hf.qualname} stores its result on the object ({stores[0]}): copies made by @builder methods (replace_table, as_) inherit the hash computed "
+                        "for the original, so objects that compare equal to a freshly built one hash differently", where=hf.loc(), rule="R1")
+    if nh < 3:
+        raise AnalysisError(f"instance count below floor: __hash__ definitions {nh}")
+
     # a memoised hash (or hash key) travels with every shallow copy: a term re-targeted by a builder method keeps the hash
     # of the term it was copied from
     from ..families import memo_methods
